@@ -337,6 +337,8 @@ class TypeMap:
             return dict(ctype='vp_rng', kind='engine', ref=ref, ptr=ptr, const=const)
         if t in ('basic_ostream<char>', 'ostream', 'basic_ostream<char,char_traits<char>>'):
             return dict(ctype='vp_ostream', kind='opaque', ref=ref, ptr=ptr, const=const)
+        if t in ('basic_istream<char>', 'istream', 'basic_istream<char,char_traits<char>>'):
+            return dict(ctype='vp_istream', kind='opaque', ref=ref, ptr=ptr, const=const)
         if t in ('basic_ofstream<char>', 'ofstream', 'basic_ofstream<char,char_traits<char>>'):
             return dict(ctype='vp_ofstream', kind='opaque', ref=ref, ptr=ptr, const=const)
         if t in ('basic_string<char>', 'string', 'basic_string<char,char_traits<char>>'):
@@ -729,6 +731,9 @@ class Emitter:
         rid = rd.get('id')
         if rid in self.refs:
             return self.refs[rid]
+        if rd.get('kind') == 'VarDecl' and rd.get('name') in ('max_digits10', 'digits10') and rid not in self.u.by_id:
+            self.fire('G3')
+            return 'VP_' + rd['name'].upper()
         if rd.get('kind') == 'VarDecl' and rd.get('name') == 'cout':
             self.fire('G13')
             return 'vp_cout'
@@ -1090,6 +1095,38 @@ class Emitter:
             r = h(self, n, args, dst)
             if r is not None:
                 return r
+        if self.opts.get('streams') and op == 'operator<<' and bti['ctype'] in ('vp_ostream', 'vp_ofstream'):
+            # G13 with the ghost token stream: one call per operand, in order; manipulators change the sticky state
+            self.fire('G13')
+            lhs = self.emit(args[0])
+            r = strip_all(args[1])
+            rq = qtype(r)
+            if r['kind'] == 'DeclRefExpr' and r.get('referencedDecl', {}).get('kind') == 'FunctionDecl':
+                nm = r['referencedDecl']['name']
+                if nm == 'scientific':
+                    return '(*vp_os_scientific(&(%s)))' % lhs
+                raise ExtractError('stream manipulator %s' % nm)
+            if r['kind'] == 'CallExpr' and strip_all(kids(r)[0]).get('referencedDecl', {}).get('name') == 'setprecision':
+                return '(*vp_os_precision(&(%s), %s))' % (lhs, self.emit(kids(r)[1]))
+            if r['kind'] in ('StringLiteral', 'CharacterLiteral'):
+                return '(*vp_os_sep(&(%s)))' % lhs
+            ri = self.tm.info(rq)
+            if ri['kind'] == 'scalar' and ri['ctype'] == 'T':
+                return '(*vp_os_put_T(&(%s), %s))' % (lhs, self.emit(args[1]))
+            if ri['kind'] == 'scalar' and ri['ctype'] in ('size_t', 'int'):
+                return '(*vp_os_put_sz(&(%s), %s))' % (lhs, self.emit(args[1]))
+            if ri['kind'] == 'scalar' and ri['ctype'] == 'char':
+                return '(*vp_os_sep(&(%s)))' % lhs
+            raise ExtractError('operator<< with operand of type ' + rq)
+        if self.opts.get('streams') and op == 'operator>>' and bti['ctype'] in ('vp_istream',):
+            self.fire('G13')
+            lhs = self.emit(args[0])
+            ri = self.tm.info(qtype(args[1]))
+            if ri['kind'] == 'scalar' and ri['ctype'] == 'T':
+                return '(*vp_is_get_T(&(%s), &(%s)))' % (lhs, self.emit(args[1]))
+            if ri['kind'] == 'scalar' and ri['ctype'] == 'size_t':
+                return '(*vp_is_get_sz(&(%s), &(%s)))' % (lhs, self.emit(args[1]))
+            raise ExtractError('operator>> into ' + qtype(args[1]))
         if op == 'operator<<' and bti['ctype'] in ('vp_ostream', 'vp_ofstream'):
             # out << a << b ...: every operand is still evaluated, in order; the formatting is libstdc++'s (G13)
             self.fire('G13')
